@@ -49,3 +49,30 @@ fn roundtrip_simple_variants() {
         match Message::deserialize(Message::ApplicationMessage(ApiMessage { msg_index: api.msg_index, data: api.data.clone() }).serialize()) { Ok(Message::ApplicationMessage(a)) if a.msg_index == api.msg_index && a.data == api.data => {}, _ => witness("ApplicationMessage does not round trip".to_string()) }
     }
 }
+
+/// C11 (routing thread): whatever well-formed message a peer sends, and however often, the routing thread's handler
+/// returns — a block message (decodable, but not part of the protocol), key-list updates beyond the rate limit, key-list
+/// updates and pings from a peer index the node has no record of.
+#[tokio::test]
+#[serial_test::serial]
+async fn well_formed_messages_never_stop_the_routing_thread() {
+    use crate::core::util::test::node_tester::test::NodeTester;
+    use crate::core::io::network_event::NetworkEvent;
+    use crate::core::process::process_event::ProcessEvent;
+    use crate::core::consensus::peers::peer::Peer;
+    use crate::core::consensus::block::{Block, BlockType};
+    let mut tester = NodeTester::default();
+    { let mut peers = tester.routing_thread.network.peer_lock.write().await; peers.index_to_peers.insert(7, Peer::new(7)); }
+    let block_message = { let mut b = Block::new(); b.id = 5; let mut v = vec![3u8]; v.extend(b.serialize_for_net(BlockType::Full)); v };
+    let key_list = Message::KeyListUpdate(vec![[2u8; 33], [3u8; 33]]).serialize();
+    let mut cases: Vec<(String, u64, Vec<u8>)> = vec![
+        ("a block message".to_string(), 7, block_message),
+        ("a ping".to_string(), 7, Message::Ping().serialize()),
+    ];
+    for n in 0..400 { cases.push((format!("key-list update #{} from the same peer", n + 1), 7, key_list.clone())); }
+    for (what, peer_index, buffer) in cases {
+        let fut = std::panic::AssertUnwindSafe(tester.routing_thread.process_network_event(NetworkEvent::IncomingNetworkMessage { peer_index, buffer }));
+        let r = futures::FutureExt::catch_unwind(fut).await;
+        if r.is_err() { witness(format!("the routing thread's message handler panicked on {} — the routing thread is gone", what)); }
+    }
+}
